@@ -46,6 +46,18 @@ func (srv *Server) Authenticate(next http.Handler) http.Handler {
 			return
 		}
 
+		if con, ok := sess.Connection().(*hap.Connection); ok && !con.ReceivedEncrypted() {
+			// The request was read in plain text together with the request which finished pair verify,
+			// the verified controller encrypts everything it sends after that
+			log.Info.Println("Close connection because of unencrypted request after pair verify", r.RemoteAddr)
+			w.Header().Set("Connection", "close")
+			w.WriteHeader(470)
+			if err := WriteJSON(w, r, &ErrResponse{Status: hap.StatusInsufficientPrivileges}); err != nil {
+				log.Debug.Println(err)
+			}
+			return
+		}
+
 		next.ServeHTTP(w, r)
 	})
 }
